@@ -200,13 +200,20 @@ DRV_OP(df_wrow) {
 DRV_OP(df_wcells) {
     if (a.size() != 3) throw ProtoError("df_wcells arity");
     return guarded([&]() {
-        std::vector<nix::Cell> cells;
-        for (auto &x : tokList(a[2])) {
+        // the cell vector is built the ways a client builds one: appended, or pre-sized and then assigned (the value types a
+        // Cell derives from have hand-written copy / swap members: an assigned Cell must be the Cell that was assigned)
+        static unsigned calls = 0;
+        std::vector<std::string> toks = tokList(a[2]);
+        bool assign = (calls++ % 2 == 1);
+        std::vector<nix::Cell> cells(assign ? toks.size() : 0);
+        size_t k = 0;
+        for (auto &x : toks) {
             size_t p = x.find('=');
             if (p == std::string::npos) throw ProtoError("bad cell " + x);
             ColRef r = refOf(x.substr(0, p));
             nix::Variant v = variantOf(x.substr(p + 1));
-            if (r.byName) cells.push_back(nix::Cell(r.name, v)); else cells.push_back(nix::Cell(r.idx, v));
+            nix::Cell c = r.byName ? nix::Cell(r.name, v) : nix::Cell(r.idx, v);
+            if (assign) cells[k++] = c; else cells.push_back(c);
         }
         wrH().writeCells(tokNat(a[1]), cells);
         return std::string();
